@@ -13,33 +13,54 @@ partial def replayLoop (h out : IO.FS.Stream) (s : Sess) : IO Unit := do
   out.putStrLn o
   replayLoop h out s'
 
-def flushCase (out : IO.FS.Stream) (pid : String) (cur : Option TCase) : IO Unit := do
+/-- C01 compares the outcome of every schedule with the first schedule of its group -/
+def flushC01 (out : IO.FS.Stream) (grp : IO.Ref (String × String × String)) (c : TCase) : IO Unit := do
+  match oracleC01Case c with
+  | .error .needFull => out.putStrLn s!"NEEDFULL {c.id}"
+  | .error (.fail w) => out.putStrLn s!"FAIL {c.id} {w}"
+  | .error _ => out.putStrLn s!"ok {c.id}"
+  | .ok sig =>
+    let g := ((metaVal c "group").bind (·.head?)).getD c.id
+    let (g0, sig0, id0) ← grp.get
+    if g0 == g then
+      if sig0 == sig then out.putStrLn s!"ok {c.id}"
+      else
+        -- name the first observable that differs
+        let parts := (sig.splitOn " ").zip (sig0.splitOn " ")
+        let d := (parts.find? (fun (a, b) => a != b)).map (fun (a, b) => s!"{a.take 60} vs {b.take 60}") |>.getD "?"
+        out.putStrLn s!"FAIL {c.id} outcome differs from schedule {id0} of the same exchange: {d}"
+    else
+      grp.set (g, sig, c.id)
+      out.putStrLn s!"ok {c.id}"
+
+def flushCase (out : IO.FS.Stream) (pid : String) (cur : Option TCase) (grp : IO.Ref (String × String × String)) : IO Unit := do
   match cur with
   | none => pure ()
   | some c =>
     let c := { c with lines := c.lines.reverse, metas := c.metas.reverse }
+    if pid == "C01" then flushC01 out grp c else
     match oracleFor pid c with
     | .ok => out.putStrLn s!"ok {c.id}"
     | .fail w => out.putStrLn s!"FAIL {c.id} {w}"
     | .known f w => out.putStrLn s!"KNOWN {c.id} {f} {w}"
     | .needFull => out.putStrLn s!"NEEDFULL {c.id}"
 
-partial def oracleLoop (h out : IO.FS.Stream) (pid : String) (cur : Option TCase) : IO Unit := do
+partial def oracleLoop (h out : IO.FS.Stream) (pid : String) (cur : Option TCase) (grp : IO.Ref (String × String × String)) : IO Unit := do
   let line ← h.getLine
   if line.isEmpty then
-    flushCase out pid cur
+    flushCase out pid cur grp
     return ()
   let l := (line.dropEndWhile (· == '\n')).toString
-  if l.isEmpty then oracleLoop h out pid cur else
+  if l.isEmpty then oracleLoop h out pid cur grp else
   if l.startsWith "case " then
-    flushCase out pid cur
-    oracleLoop h out pid (some { id := (l.drop 5).toString, metas := [], lines := [] })
+    flushCase out pid cur grp
+    oracleLoop h out pid (some { id := (l.drop 5).toString, metas := [], lines := [] }) grp
   else
     match cur with
-    | none => oracleLoop h out pid cur
+    | none => oracleLoop h out pid cur grp
     | some c =>
-      if l.startsWith "meta " then oracleLoop h out pid (some { c with metas := l :: c.metas })
-      else oracleLoop h out pid (some { c with lines := parseTLine l :: c.lines })
+      if l.startsWith "meta " then oracleLoop h out pid (some { c with metas := l :: c.metas }) grp
+      else oracleLoop h out pid (some { c with lines := parseTLine l :: c.lines }) grp
 
 def main (args : List String) : IO UInt32 := do
   match args with
@@ -47,7 +68,7 @@ def main (args : List String) : IO UInt32 := do
     replayLoop (← IO.getStdin) (← IO.getStdout) { hack := !rest.contains "nohack", full := rest.contains "full" }
     return 0
   | ["oracle", pid] =>
-    oracleLoop (← IO.getStdin) (← IO.getStdout) pid none
+    oracleLoop (← IO.getStdin) (← IO.getStdout) pid none (← IO.mkRef ("", "", ""))
     return 0
   | _ =>
     IO.eprintln "usage: hootmodel replay [nohack] [full] < trace"
